@@ -265,6 +265,91 @@ def text_routes(man):
     return d
 
 
+def number_memory(man):
+    """round 9: no number->text route has MEMORY.  (1) no field of `pub struct Vm` and no `static` of vm.rs / core.rs / value.rs /
+    object.rs has a type that mentions a float (a memo of a formatted number needs one); (2) the bodies of vm.rs format_string_impl /
+    build_string_impl and core.rs string_from / print touch no state: every `self.<name>` / `vm.<name>` is a method CALL, there is no
+    assignment through self/vm and no static / thread_local / Cell; (3) the Display arm of Value::Number names no static / Cell."""
+    vm = toks_of("vm.rs")
+    fields = []
+    i = find_seq(vm, ["pub", "struct", "Vm", "{"])
+    if i >= 0:
+        o = i + 3
+        c = match_group(vm, o)
+        depth = 0
+        cur = []
+        for j in range(o + 1, c + 1):
+            t = vm[j].text
+            if j == c or (t == "," and depth == 0):
+                if cur:
+                    fields.append(cur)
+                cur = []
+                continue
+            if t in ("(", "[", "{", "<"):
+                depth += 1
+            elif t in (")", "]", "}", ">"):
+                depth -= 1
+            elif t == ">>":
+                depth -= 2
+            cur.append(t)
+    FLOATS = ("f64", "f32")
+    field_strs = []
+    for f in fields:
+        f = [t for t in f if not t.startswith("//")]
+        if ":" in f:
+            k = f.index(":")
+            name = f[k - 1]
+            field_strs.append(name + ": " + " ".join(f[k + 1:]))
+    no_float_field = bool(field_strs) and not any(any(fl in fs.split(": ", 1)[1].split(" ") for fl in FLOATS) for fs in field_strs)
+    no_float_static = True
+    for fname in ("vm.rs", "core.rs", "value.rs", "object.rs"):
+        toks = vm if fname == "vm.rs" else toks_of(fname)
+        for j, t in enumerate(toks):
+            if t.text == "static" and j + 1 < len(toks) and toks[j + 1].text not in ("str", ">", ",", ")"):
+                k = j
+                while k < len(toks) and toks[k].text not in ("=", ";"):
+                    k += 1
+                if any(x in FLOATS for x in texts(toks, j, k)):
+                    no_float_static = False
+    STATE_WORDS = ("static", "thread_local!", "Cell", "RefCell", "OnceCell", "OnceLock", "lazy_static!", "Mutex", "AtomicU64", "with")
+
+    def stateless(toks, fn_name, recv):
+        k = find_seq(toks, ["fn", fn_name])
+        if k < 0:
+            return False
+        o, c = body_after(toks, k)
+        b = texts(toks, o, c + 1)
+        if any(w in b for w in STATE_WORDS):
+            return False
+        for j in range(len(b) - 3):
+            if b[j] == recv and b[j + 1] == "." and b[j + 3] != "(":
+                return False
+        return True
+
+    core = toks_of("core.rs")
+    routes_stateless = stateless(vm, "format_string_impl", "self") and stateless(core, "string_from", "vm") and stateless(core, "print", "vm")
+    # build_string_impl may read its operands, but must not write a field
+    bs_ok = False
+    k = find_seq(vm, ["fn", "build_string_impl"])
+    if k >= 0:
+        o, c = body_after(vm, k)
+        b = texts(vm, o, c + 1)
+        bs_ok = not any(w in b for w in STATE_WORDS)
+        for j in range(len(b) - 3):
+            if b[j] == "self" and b[j + 1] == "." and b[j + 3] in ("=", "+=", "-="):
+                bs_ok = False
+    val = toks_of("value.rs")
+    disp_stateless = False
+    k = find_seq(val, ["impl", "fmt", "::", "Display", "for", "Value"])
+    if k >= 0:
+        o, c = body_after(val, k)
+        disp_stateless = not any(w in texts(val, o, c) for w in STATE_WORDS)
+    d = {"vm_fields": field_strs, "vm_has_no_float_field": no_float_field, "no_float_static": no_float_static,
+         "text_routes_are_stateless": routes_stateless, "build_string_writes_no_field": bs_ok, "display_is_stateless": disp_stateless}
+    man["c19_number_memory"] = d
+    return d
+
+
 def coq_bool(b):
     return "true" if b else "false"
 
@@ -281,7 +366,7 @@ def gen_numsrc(man):
     sc = scanner_number(man)
     direct, lit = parse_sites(man)
     lines = ["(* GENERATED by translator/translate_c19.py from value.rs, scanner.rs, core.rs, compiler.rs - do not edit *)",
-             "From Coq Require Import String Bool.", "Open Scope string_scope.", "",
+             "From Coq Require Import String Bool List.", "Import ListNotations.", "Open Scope string_scope.", "",
              "(* value.rs, Display arm of Value::Number *)",
              "Definition display_neg_zero_branch : bool := %s." % coq_bool(branch),
              "Definition display_neg_zero_text : string := %s." % coq_strlit(ztext),
@@ -301,6 +386,11 @@ def gen_numsrc(man):
               "string_from_uses_display", "print_uses_display", "print_has_no_numeric_code",
               "text_routes_have_no_numeric_cast", "display_impls_have_no_numeric_cast"):
         lines.append("Definition %s : bool := %s." % (k, coq_bool(tr[k])))
+    nm = number_memory(man)
+    lines += ["", "(* round 9: no number->text route has memory (Vm fields / statics of a float type; the route bodies touch no state) *)",
+              "Definition src_vm_fields : list string := [%s]." % "; ".join('"%s"' % f.replace('"', '""') for f in nm["vm_fields"])]
+    for k in ("vm_has_no_float_field", "no_float_static", "text_routes_are_stateless", "build_string_writes_no_field", "display_is_stateless"):
+        lines.append("Definition %s : bool := %s." % (k, coq_bool(nm[k])))
     lines.append("")
     return "\n".join(lines) + "\n"
 
